@@ -31,10 +31,26 @@ func tcResolve(c *an.Check) *tcAnchors {
 		c.Undecided("GATE", "transport controller link tables", nil, "unresolved anchor")
 		return nil
 	}
+	scope := func(g *ssa.Function) []*ssa.Function {
+		if an.InlineHelpers {
+			return append([]*ssa.Function{g}, an.HelperCallees(g)...)
+		}
+		return []*ssa.Function{g}
+	}
 	mutates := func(g *ssa.Function, f *types.Var) bool {
-		for _, acc := range p.FieldAccesses(f, []*ssa.Function{g}) {
+		for _, acc := range p.FieldAccesses(f, scope(g)) {
 			if acc.Kind == an.MapWrite {
 				return true
+			}
+		}
+		return false
+	}
+	deletes := func(g *ssa.Function, f *types.Var) bool {
+		for _, acc := range p.FieldAccesses(f, []*ssa.Function{g}) {
+			if acc.Kind == an.MapWrite {
+				if call, ok := acc.Instr.(*ssa.Call); ok && an.BuiltinName(call) == "delete" {
+					return true
+				}
 			}
 		}
 		return false
@@ -42,7 +58,7 @@ func tcResolve(c *an.Check) *tcAnchors {
 	a.est = one(closuresWhere(a.estOuter, func(g *ssa.Function) bool { return mutates(g, a.linksF) }))
 	a.lost = one(closuresWhere(a.lostOuter, func(g *ssa.Function) bool { return mutates(g, a.linksF) }))
 	a.flush = one(pkgFuncsWhere(p, tcPkg, func(f *ssa.Function) bool {
-		return f.Signature.Recv() != nil && isNamedPtr(f.Signature.Recv().Type(), "Controller") && mutates(f, a.byPeerF) && mutates(f, a.linksF)
+		return f.Signature.Recv() != nil && isNamedPtr(f.Signature.Recv().Type(), "Controller") && mutates(f, a.byPeerF) && deletes(f, a.linksF)
 	}))
 	if a.est == nil || a.lost == nil || a.flush == nil {
 		c.Undecided("GATE", "transport controller link tables", nil, "unresolved anchor: establish/lost critical sections or the flush helper not found")
